@@ -419,7 +419,8 @@ def gen_bad_response(rng):
     if r < 0.32:
         # a well-formed head that promises JSON, with a body that is not: invalid JSON text, bytes that are not UTF-8
         # (latin-1 character, multi-byte sequence cut short by the length, random high bytes), an empty body
-        body = rng.choice([b'{"a": 1', b"[1, 2,,]", b"nope", b"", b'{"caf\xe9": 1}', b'{"k": "\xe2\x82"}', b'"\xf0\x9f\x98"',
+        body = rng.choice([b"[" * 100000, b'{"a":' * 30000 + b"1" + b"}" * 30000,      # nested deeper than the decoder recurses
+                           b'{"a": 1', b"[1, 2,,]", b"nope", b"", b'{"caf\xe9": 1}', b'{"k": "\xe2\x82"}', b'"\xf0\x9f\x98"',
                            bytes(rng.randrange(128, 256) for _ in range(rng.randint(1, 12))), b'{"ok": true}', b"\xff\xfe{}"])
         ctype = rng.choice([b"application/json", b"application/json; charset=utf-8", b"application/json",
                             # parameters without a value, with a blank instead of `=`, several of them
@@ -451,7 +452,9 @@ BAD_LOCATIONS = [b"http://[::1/x", b"http://127.0.0.1:99999/x", b"http://127.0.0
                  b"http://127.0.0.1:-5/x", b"http://[::1]:x/", b"/ok/relative", b"relative?q=1", b"http://127.0.0.1:65536/",
                  b"http://[/x", b"//[::1/y",
                  # a url without a host, a bracketed host of the IPvFuture form with letters where the port stands
-                 b"https:///nohost", b"http://[v1.zz:ab]/x", b"http://[v1.a:b]:80/x", b"//:x/y", b"http://:70000/"]
+                 b"https:///nohost", b"http://[v1.zz:ab]/x", b"http://[v1.a:b]:80/x", b"//:x/y", b"http://:70000/",
+                 # a path that begins with two slashes (the requester takes it for `//host/path`)
+                 b"http://127.0.0.1:8080//x/y", b"//127.0.0.1:8080//x/y"]
 
 
 def client_case(ctx, rng, idx, deadline):
@@ -518,6 +521,36 @@ def client_case(ctx, rng, idx, deadline):
     ctx.hit("client:" + outcome)
     ctx.hit("cop:" + op)
     followable = op == "location" and (b"Location: /ok/relative" in data or b"Location: relative?q=1" in data)
+    if hang and not queue and escaped is None and conn.cutoff and outcome == "errored" and not followable and b"//x/y" not in data:
+        # a second life: the owner connects the client again (a fresh connection of the in-memory net) and asks once more;
+        # what the dead connection left unparsed is none of the new connection's business
+        left = bytes(conn.rxbs)
+        conn.cs = net.connect()
+        conn.opened = True
+        conn.cutoff = False
+        ss2, ca2 = net.listener.pending.popleft()
+        patron.request(method="GET", path="/second-life")
+        sent = False
+        esc3 = None
+        for r3 in range(30):
+            try:
+                patron.serviceAll()
+            except Exception as ex:
+                esc3 = (exc_key(ex), "%s: %s" % (type(ex).__name__, str(ex)[:100]))
+                break
+            net.deliver()
+            if not sent and net.conns[-1][2].buf:
+                ss2.send(b"HTTP/1.1 200 OK\r\nContent-Length: 2\r\n\r\nok")
+                sent = True
+            net.deliver()
+            store.advanceStamp(0.01)
+        ctx.hit("second_life_after_a_response_cut_short")
+        got2 = [(r["status"], bytes(r["body"]), bool(r["errored"]), r["error"]) for r in list(patron.responses)[1:]]
+        ctx.check(esc3 is None and [g[:3] for g in got2] == [(200, b"ok", False)],
+                  "client/next-connection-disturbed-by-what-a-cut-short-response-left-behind",
+                  "after a response cut short by the server's close (recorded as errored) the client was connected again and asked once "
+                  "more; the well-formed answer gave %s%s" % (got2, ", raised %s" % (esc3[1],) if esc3 else ""),
+                  lambda: wit({"left_in_receive_buffer_after_the_first_connection": left, "second_life": repr(got2), "escaped": esc3}))
     if hang and not queue and escaped is None and (conn.cutoff or recon) and not followable:
         # everything the server sent was delivered, the server closed and the client has noticed: the exchange is over -- a
         # response that can never be completed is an error to record, not something to wait for
@@ -536,7 +569,7 @@ def client_case(ctx, rng, idx, deadline):
                   "a complete redirect response (%s) is not recorded after %d service rounds; the request was sent %d times" % (
                       op, rounds, nreq0), lambda: wit({"requests_sent": nreq0, "redirects_kept": len(patron.redirects)}))
     if op in ("location", "nolocation") and not followable and not hang and escaped is None and len(patron.responses) == 1 \
-            and not conn.cutoff:
+            and not conn.cutoff and b"//x/y" not in data:       # (those name another server: the patron has left this one)
         # normal use after the redirect that could not be followed: the next exchange on the same patron is an ordinary one
         seen_before = len(net.conns[0][2].buf)
         patron.request(method="GET", path="/after")
